@@ -38,6 +38,16 @@ pub enum Case {
         len: usize,
         fail: bool,
     },
+    /// result types other than i64: f64 (sums exactly representable, and general values with a rounding
+    /// tolerance), i32 and u64
+    OtherTypes {
+        /// multiples of 1/1024 below 2^30 in magnitude: every partial sum in any order is exact in f64
+        exact: Vec<i32>,
+        /// general finite values (bit patterns are sanitised into |x| < 1e12)
+        general: Vec<u64>,
+        errors: bool,
+        source: u8,
+    },
 }
 
 fn rev(o: Ordering) -> Ordering {
@@ -115,9 +125,10 @@ pub const SOURCES: u8 = 12;
 
 /// The ways a caller can hand per-case values to `TestResults`: exact-size sources, and iterators
 /// whose size hint is valid but imprecise (the total must still cover every value).
-fn build_results<R>(v: &[i64], source: u8, mk: &impl Fn(i64) -> R) -> (TestResults<R>, &'static str)
+fn build_results<V, R>(v: &[V], source: u8, mk: &impl Fn(V) -> R) -> (TestResults<R>, &'static str)
 where
-    R: From<i64> + for<'x> std::iter::Sum<&'x R> + 'static,
+    V: Copy + 'static,
+    R: From<V> + From<R> + for<'x> std::iter::Sum<&'x R> + 'static,
 {
     use crate::iters::Hinted;
     let n = v.len();
@@ -145,8 +156,8 @@ where
     R: Ord + Copy + std::fmt::Debug + From<i64> + From<R> + for<'x> std::iter::Sum<&'x R> + std::iter::Sum<R> + 'static,
 {
     let (sa, sb): (i128, i128) = (a.iter().map(|v| i128::from(*v)).sum(), b.iter().map(|v| i128::from(*v)).sum());
-    let (ta, how_a) = build_results::<R>(a, source, &mk);
-    let (tb, how_b) = build_results::<R>(b, source / SOURCES, &mk);
+    let (ta, how_a) = build_results::<i64, R>(a, source, &mk);
+    let (tb, how_b) = build_results::<i64, R>(b, source / SOURCES, &mk);
     for (t, v, s, how) in [(&ta, a, sa, how_a), (&tb, b, sb, how_b)] {
         ensure!(
             t.results.len() == v.len() && t.results.iter().zip(v).all(|(r, x)| *r == mk(*x)),
@@ -190,6 +201,78 @@ where
         "operators on individuals disagree with {want:?}"
     );
     ensure!(std::cmp::max(&ia, &ib).test_results.cmp(&std::cmp::min(&ia, &ib).test_results) != Ordering::Less, "EcIndividual/max-min", "max < min");
+    Ok(())
+}
+
+fn sanitise(bits: u64) -> f64 {
+    let x = f64::from_bits(bits);
+    if x.is_finite() && x.abs() < 1e12 {
+        x
+    } else {
+        // fold anything else into a finite value of moderate size, keeping the sign bit
+        let m = (bits >> 12) as f64 / (1u64 << 40) as f64;
+        if bits >> 63 == 1 { -m } else { m }
+    }
+}
+
+fn other_types_case(exact: &[i32], general: &[u64], errors: bool, source: u8) -> Result<(), Fail> {
+    // ---- f64, exactly representable sums: equality is exact whatever the summation order
+    let xs: Vec<f64> = exact.iter().map(|v| f64::from(*v) / 1024.0).collect();
+    let want_total = exact.iter().map(|v| i64::from(*v)).sum::<i64>() as f64 / 1024.0;
+    macro_rules! float_case {
+        ($name:literal, $ctor:expr, $inner:expr, $flip:expr) => {{
+            let (t, how) = build_results::<f64, _>(&xs, source, &$ctor);
+            ensure!(
+                t.results.len() == xs.len() && t.results.iter().zip(&xs).all(|(r, x)| $inner(r).to_bits() == x.to_bits()),
+                concat!($name, "/results-order"),
+                "built by {how}: results are not the given values {xs:?} in order"
+            );
+            ensure!(
+                $inner(&t.total_result) == want_total,
+                concat!($name, "/total-not-sum"),
+                "built by {how}: total {:?} of {} exactly summable values, the sum is {want_total}",
+                t.total_result,
+                xs.len()
+            );
+            ensure!(t.len() == xs.len() && t.is_empty() == xs.is_empty(), concat!($name, "/len"), "len()/is_empty()");
+            // general values: any summation order is a sum; the total must lie within the rounding bound
+            let gs: Vec<f64> = general.iter().map(|b| sanitise(*b)).collect();
+            let (g, how) = build_results::<f64, _>(&gs, source / SOURCES, &$ctor);
+            // reference: Neumaier-compensated sum (error far below the tolerance)
+            let (mut sum, mut comp, mut abs) = (0.0f64, 0.0f64, 0.0f64);
+            for x in &gs {
+                let t = sum + x;
+                comp += if sum.abs() >= x.abs() { (sum - t) + x } else { (x - t) + sum };
+                sum = t;
+                abs += x.abs();
+            }
+            let reference = sum + comp;
+            let tol = (gs.len() as f64 + 2.0) * f64::EPSILON * abs;
+            ensure!(
+                ($inner(&g.total_result) - reference).abs() <= tol,
+                concat!($name, "/total-not-sum"),
+                "built by {how}: total {:?} of {} values, the sum is {reference} (tolerance {tol:e} = (n+2) eps sum|x|)",
+                g.total_result,
+                gs.len()
+            );
+            ensure!(g.results.len() == gs.len() && g.results.iter().zip(&gs).all(|(r, x)| $inner(r).to_bits() == x.to_bits()), concat!($name, "/results-order"), "built by {how}: results are not the given values in order");
+            // ordering of two collections = ordering of their totals (reversed for errors)
+            let want = if $flip { $inner(&g.total_result).partial_cmp(&$inner(&t.total_result)) } else { $inner(&t.total_result).partial_cmp(&$inner(&g.total_result)) };
+            ensure!(t.partial_cmp(&g) == want, concat!($name, "/partial_cmp-not-by-total"), "totals {:?} / {:?}: partial_cmp = {:?}, expected {want:?}", t.total_result, g.total_result, t.partial_cmp(&g));
+        }};
+    }
+    if errors {
+        float_case!("TestResults<Error<f64>>", ErrRes::<f64>, |r: &ErrRes<f64>| r.0, true);
+    } else {
+        float_case!("TestResults<Score<f64>>", Score::<f64>, |r: &Score<f64>| r.0, false);
+    }
+    // ---- narrower / unsigned integer types (values scaled so that the sums fit)
+    let small: Vec<i32> = exact.iter().map(|v| v % 1000).collect();
+    let (t, how) = build_results::<i32, Score<i32>>(&small, source, &Score::<i32>);
+    ensure!(t.results.iter().map(|r| r.0).eq(small.iter().copied()) && t.total_result == Score(small.iter().sum::<i32>()), "TestResults<Score<i32>>/total-not-sum", "built by {how}: {:?} from {small:?}", t.total_result);
+    let unsigned: Vec<u64> = general.iter().map(|b| b >> 12).collect();
+    let (t, how) = build_results::<u64, ErrRes<u64>>(&unsigned, source / SOURCES, &ErrRes::<u64>);
+    ensure!(t.results.iter().map(|r| r.0).eq(unsigned.iter().copied()) && t.total_result == ErrRes(unsigned.iter().sum::<u64>()), "TestResults<Error<u64>>/total-not-sum", "built by {how}: {:?} from {unsigned:?}", t.total_result);
     Ok(())
 }
 
@@ -305,6 +388,11 @@ pub fn oracle(c: &Case, probe: &mut Probe) -> Result<(), Fail> {
             generator_case(*seed, *len, *fail)?;
             probe.nontrivial = *len >= 2;
         }
+        Case::OtherTypes { exact, general, errors, source } => {
+            other_types_case(exact, general, *errors, *source)?;
+            probe.nontrivial = exact.len() >= 2 || general.len() >= 2;
+            probe.label("result types f64 / i32 / u64");
+        }
     }
     Ok(())
 }
@@ -329,12 +417,19 @@ fn strategy() -> BoxedStrategy<Case> {
             Case::Results { a, b, errors, genome_a, genome_b, source }
         }),
         2 => (any::<u64>(), 0usize..40, prop::bool::weighted(0.2)).prop_map(|(seed, len, fail)| Case::Generator { seed, len, fail }),
+        2 => (
+            prop_oneof![6 => prop::collection::vec(-(1i32 << 30)..(1i32 << 30), 0..40), 1 => prop::collection::vec(-(1i32 << 30)..(1i32 << 30), 100..400)],
+            prop_oneof![6 => prop::collection::vec(any::<u64>(), 0..40), 1 => prop::collection::vec(any::<u64>(), 100..400)],
+            any::<bool>(),
+            0u8..(SOURCES * SOURCES)
+        )
+            .prop_map(|(exact, general, errors, source)| Case::OtherTypes { exact, general, errors, source }),
     ]
     .boxed()
 }
 
 pub fn run(ctx: &mut Ctx) {
-    ctx.rule = "exhaustive: all 343 triples over {MIN, MIN+1, -1, 0, 1, MAX-1, MAX}; generated: value triples, pairs of result vectors (length 0..64, occasionally 200..1200, sums fit i64; incl. rotations with equal totals) in both polarities, each built through one of 12 sources (slice / Vec / typed results, and iterators with valid but imprecise size hints: filter, flat_map, from_fn, chain, take_while, custom hints) wrapped into individuals with different genomes, and IndividualGenerator / GenomeScorer runs with a recording scorer against the genome source run from an equal generator state. non-trivial = triples with >= 2 distinct values, vectors of length >= 2, genomes of length >= 2; distinct by JSON encoding".into();
+    ctx.rule = "exhaustive: all 343 triples over {MIN, MIN+1, -1, 0, 1, MAX-1, MAX}; generated: value triples, pairs of result vectors (length 0..64, occasionally 200..1200, sums fit i64; incl. rotations with equal totals) in both polarities, each built through one of 12 sources (slice / Vec / typed results, and iterators with valid but imprecise size hints: filter, flat_map, from_fn, chain, take_while, custom hints) wrapped into individuals with different genomes, result collections over f64 (exactly summable values: exact equality; general values: within the rounding bound (n+2) eps sum|x| of the sum, so that any summation order is accepted), i32 and u64, and IndividualGenerator / GenomeScorer runs with a recording scorer against the genome source run from an equal generator state. non-trivial = triples with >= 2 distinct values, vectors of length >= 2, genomes of length >= 2; distinct by JSON encoding".into();
     ctx.assumptions.push("TestResults == (derived, structural) is not required to agree with its cmp; result vectors are generated so that their sum fits in i64".into());
     ctx.exhaustive = Some(true);
     ctx.extra.insert("exhaustive_scope".into(), serde_json::json!("all ordered triples over the 7 extreme values (343); the generated sub-check is not exhaustive"));
